@@ -193,50 +193,59 @@ func (p *Program) renames() *renameInfo {
 			g(k).extra = append(g(k).extra, k)
 		}
 	}
-	for _, gr := range groups {
-		sort.Strings(gr.missing)
-		sort.Strings(gr.extra)
-		for _, m := range gr.missing {
-			var cands []string
-			for _, e := range gr.extra {
-				if curSig[e] == ref[m] {
-					cands = append(cands, e)
+	for pass := 0; pass < 2; pass++ {
+		for _, gr := range groups {
+			sort.Strings(gr.missing)
+			sort.Strings(gr.extra)
+			for _, m := range gr.missing {
+				if strings.Contains(m, "|#") != (pass == 0) {
+					continue // pass 0: struct fields; pass 1: functions (their fingerprints use the field names resolved in pass 0)
 				}
-			}
-			if len(cands) == 0 {
-				continue
-			}
-			// the candidate must match only this missing name; otherwise the bodies decide
-			n := 0
-			for _, m2 := range gr.missing {
-				if ref[m2] == curSig[cands[0]] {
-					n++
+				var cands []string
+				for _, e := range gr.extra {
+					if curSig[e] == ref[m] {
+						cands = append(cands, e)
+					}
 				}
-			}
-			if len(cands) != 1 || n != 1 {
-				if strings.Contains(m, "|#") {
+				if len(cands) == 0 {
 					continue
 				}
-				best := p.bestByFingerprint(m, cands, cur, gr.missing, ref, curSig)
-				if best == "" {
+				// the candidate must match only this missing name; otherwise the bodies decide
+				n := 0
+				for _, m2 := range gr.missing {
+					if ref[m2] == curSig[cands[0]] {
+						n++
+					}
+				}
+				if len(cands) != 1 || n != 1 {
+					if strings.Contains(m, "|#") {
+						continue
+					}
+					best := p.bestByFingerprint(m, cands, cur, gr.missing, ref, curSig)
+					if best == "" {
+						continue
+					}
+					cands = []string{best}
+				} else if !strings.Contains(m, "|#") && !p.resembles(m, cur[cands[0]]) {
+					// same signature but another body: a new function that happens to fit (work moved to or from the callers), not a rename
+					ri.notes = append(ri.notes, cands[0]+" has the signature of the missing "+m+" but a different body: not treated as a rename")
 					continue
 				}
-				cands = []string{best}
+				refName := m[strings.LastIndex(m, "|")+1:]
+				if strings.HasPrefix(refName, "#") != strings.HasPrefix(cands[0][strings.LastIndex(cands[0], "|")+1:], "#") {
+					continue
+				}
+				if strings.HasPrefix(refName, "#") {
+					ri.field[fobj[cands[0]]] = refName[1:]
+					ri.notes = append(ri.notes, cands[0]+" is treated as the renamed field "+m)
+					continue
+				}
+				fn := cur[cands[0]]
+				ri.canon[fn] = refName
+				ri.byKey[m] = fn
+				ri.qual[fn] = qualOfKey(m)
+				ri.notes = append(ri.notes, cands[0]+" is treated as the renamed "+m)
 			}
-			refName := m[strings.LastIndex(m, "|")+1:]
-			if strings.HasPrefix(refName, "#") != strings.HasPrefix(cands[0][strings.LastIndex(cands[0], "|")+1:], "#") {
-				continue
-			}
-			if strings.HasPrefix(refName, "#") {
-				ri.field[fobj[cands[0]]] = refName[1:]
-				ri.notes = append(ri.notes, cands[0]+" is treated as the renamed field "+m)
-				continue
-			}
-			fn := cur[cands[0]]
-			ri.canon[fn] = refName
-			ri.byKey[m] = fn
-			ri.qual[fn] = qualOfKey(m)
-			ri.notes = append(ri.notes, cands[0]+" is treated as the renamed "+m)
 		}
 	}
 	// method <-> function conversion inside one package: (*T).m(args)  ~  m2(t *T, args)
@@ -569,14 +578,19 @@ func (p *Program) Fingerprint(fn *ssa.Function) []string {
 					if cc.IsInvoke() {
 						set["invoke:"+cc.Method.Name()] = true
 					} else if g := cc.StaticCallee(); g != nil && g.Parent() == nil {
-						set["call:"+g.String()] = true
+						if InModule(g) {
+							// by signature, so that renaming a helper does not change the fingerprint of its callers
+							set["call:module:"+sigString(g.Signature)] = true
+						} else {
+							set["call:"+g.String()] = true
+						}
 					}
 				}
 				switch x := i.(type) {
 				case *ssa.FieldAddr:
-					set["field:"+FieldNameRaw(x.X.Type(), x.Field)] = true
+					set["field:"+p.fieldNameFP(x.X.Type(), x.Field)] = true
 				case *ssa.Field:
-					set["field:"+FieldNameRaw(x.X.Type(), x.Field)] = true
+					set["field:"+p.fieldNameFP(x.X.Type(), x.Field)] = true
 				}
 				for _, op := range i.Operands(nil) {
 					if k, ok := (*op).(*ssa.Const); ok && k.Value != nil {
@@ -681,4 +695,41 @@ func (p *Program) bestByFingerprint(m string, cands []string, cur map[string]*ss
 		}
 	}
 	return best
+}
+
+// resembles: the body of fn is (nearly) the reference body of key m. Functions with fewer than three fingerprint tokens are too small
+// to tell and are accepted.
+func (p *Program) resembles(m string, fn *ssa.Function) bool {
+	if p.fps == nil {
+		p.fps = map[string][]string{}
+		json.Unmarshal(anchorsFPJSON, &p.fps)
+	}
+	want, ok := p.fps[m]
+	if !ok || len(want) < 3 {
+		return true
+	}
+	return jaccard(want, p.Fingerprint(fn)) >= 0.7
+}
+
+// fieldNameFP: "T.field" for fingerprints, with the reference names of renamed types and fields (as far as they are known when the
+// fingerprint is taken: fields are resolved before functions).
+func (p *Program) fieldNameFP(t types.Type, idx int) string {
+	if pt, ok := t.Underlying().(*types.Pointer); ok {
+		t = pt.Elem()
+	}
+	st, ok := t.Underlying().(*types.Struct)
+	if !ok || idx >= st.NumFields() {
+		return "?"
+	}
+	n := ""
+	if nt, ok := t.(*types.Named); ok {
+		n = p.CanonTypeName(nt.Obj())
+	}
+	f := st.Field(idx).Name()
+	if p.ren != nil {
+		if c, ok := p.ren.field[st.Field(idx)]; ok {
+			f = c
+		}
+	}
+	return n + "." + f
 }
